@@ -177,7 +177,7 @@ def close_worlds():
 def build_world(es, loop_ref, lazy=False):
     # every named template ends by printing `tg`, an environment global that a request's own
     # globals (get_template(name, globals=...)) may override
-    sources = {nm: (G.render_source(t) if not isinstance(t, str) else t) + "[{{ tg }}]"
+    sources = {nm: (G.render_source(t) if not isinstance(t, str) else t) + "[{{ tg }}{{ m }}]"
                for nm, t in es["templates"].items()}
     kind = es["loader"]
     ns_key = es.get("ns_key") or ""
@@ -227,7 +227,7 @@ def build_world(es, loop_ref, lazy=False):
                                            cache_size=es["capacity"] if kind == "cchoice" else 0)
         else:
             ld = ChoiceLoader(subs) if kind == "choice" else CachingChoiceLoader(subs, **kw)
-    env = G.build_env({**es["recipe"], "globals": {**es["recipe"]["globals"], "tg": "E"}}, ld)
+    env = G.build_env({**es["recipe"], "globals": {**es["recipe"]["globals"], "tg": "E", "m": ""}}, ld)
     main_src = [G.render_source(t) if not isinstance(t, str) else t for t in es["mains"]]
     if lazy:
         return env, LazyMains(env, main_src), main_src
